@@ -28,6 +28,7 @@ def oracle_c04(tr: Trace):
     remote = tr.cfg["remotes"][0] if tr.cfg["remotes"] else None
     if remote is None:
         return
+    by_id = {r["id"]: r for r in tr.cfg["remotes"]}
     faults = tr.cfg["faults"]
     now = 0
     last = {}           # last PDU emitted per kind
@@ -40,6 +41,9 @@ def oracle_c04(tr: Trace):
             g = codec.dec_got(st.ob["extra"])[0]
             last[g["kind"]] = _strip(g)
             continue
+        if st.tag == 8 and st.ob["ret"] == 1 and st.op[1] in by_id:
+            remote = by_id[st.op[1]]          # the remote entity the running transaction addresses
+            silent_expiries = 0
         if st.tag not in (0, 1) or st.prev is None:
             continue
         pf, f = st.prev["fields"], st.ob["fields"]
@@ -57,7 +61,7 @@ def oracle_c04(tr: Trace):
                     raise Failure(f"C04 ACK(EOF) did not end the EOF positive-ACK procedure (op {st.i})")
                 silent_expiries = 0
                 continue
-            expired = now - pf["ack_timer_start"] >= pf["ack_timer_ms"]
+            expired = now - pf["ack_timer_start"] >= remote["ack_ms"]      # the interval configured for this remote
             eofs = [g for g in got if g["kind"] == codec.K_EOF]
             limit_fault = [e for e in evs if e[0] in (11, 12, 13, 14) and (e[3] == 1 or e[0] == 14)]
             if not expired:
@@ -102,7 +106,7 @@ def oracle_c04(tr: Trace):
                 if not any(g["kind"] == codec.K_ACK and g["acked"] == 4 for g in got) or f["ack_counter"] != pf["ack_counter"]:
                     raise Failure(f"C04 receiver did not simply re-acknowledge a re-sent EOF while waiting for the Finished ACK (op {st.i})")
                 continue
-            expired = now - pf["ack_timer_start"] >= pf["ack_timer_ms"]
+            expired = now - pf["ack_timer_start"] >= remote["ack_ms"]      # the interval configured for this remote
             fins = [g for g in got if g["kind"] == codec.K_FIN]
             limit_fault = [e for e in evs if e[0] in (11, 12, 13, 14) and (e[3] == 1 or e[0] == 14)]
             if not expired:
@@ -146,7 +150,7 @@ def oracle_c04(tr: Trace):
                 continue
             if st.pdu is not None and st.pdu["kind"] == codec.K_FD and pf["step"] == 2:
                 continue
-            expired = now - pf["proc_timer_start"] >= pf["proc_timer_ms"]
+            expired = now - pf["proc_timer_start"] >= remote["nak_ms"]
             if not expired:
                 if naks or nak_fault or f["nak_counter"] != pf["nak_counter"]:
                     raise Failure(f"C04 receiver re-issued NAKs / declared NAK limit before the NAK timer expired (op {st.i})")
@@ -236,7 +240,7 @@ def c04_cases(tier, rng):
                         cases.append(SilentCase(cfg, size, cut_dir, cut, None))
                         if N > 1 and (tier == "thorough" or rng.random() < 0.35):
                             cases.append(SilentCase(cfg, size, cut_dir, cut, resume_after=rng.randint(1, N - 1)))
-    for _ in range(60 if tier == "quick" else 600):
+    for _ in range(60 if tier == "quick" else 4000):
         cfg = campaign.rand_cfg(rng, mode=0, req_mode=None, ack_ms=1000, nak_ms=rng.choice([1000, 500]))
         cases.append(SilentCase(cfg, rng.choice([0, 3, 8, 13]), rng.choice(["d2s", "s2d", "both"]), rng.randint(0, 8),
                                 rng.choice([None, None, 1, 2])))
@@ -359,7 +363,7 @@ _base2_c04_cases = c04_cases
 
 def c04_cases(tier, rng):  # noqa: F811
     cases = _base2_c04_cases(tier, rng)
-    for _ in range(150 if tier == "quick" else 2000):
+    for _ in range(150 if tier == "quick" else 12000):
         N = rng.choice([2, 3, 3, 4])
         cfg = Cfg(mode=0, max_seg=rng.choice([2, 4]), ack_limit=N, nak_limit=N, imm_nak=rng.random() < 0.4,
                   closure=rng.random() < 0.5, disposition=rng.random() < 0.3, cktype=rng.choice([3, 15]))
@@ -374,4 +378,78 @@ def c04_cases(tier, rng):  # noqa: F811
             if rng.random() < 0.7:
                 phases.append(("tick", rng.randint(1, N - 1)))
         cases.append(GateCase(cfg, rng.choice([5, 8, 9, 13]), faults, phases))
+    return cases
+
+
+class ReuseSilentCase(SilentCase):
+    """An earlier transaction on the same handler pair (completed, or abandoned by a silent peer), then an acknowledged
+    transaction addressed to a SECOND remote entity of the sender's MIB which has its own Positive-ACK interval and limit
+    and never answers.  The clock advances in steps smaller than either interval, so an expiry that comes early or late
+    (a timer carried over from the earlier transaction) is seen at the call where it happens."""
+
+    def __init__(self, cfg, size, first, tag="c04r"):
+        super().__init__(cfg, size, "both", 10 ** 6, None, tag)
+        self.first = first
+
+    def describe(self):
+        d = super().describe()
+        d.update(first=self.first, ack_ms=self.cfg.ack_ms, alt=self.cfg.alt_remote)
+        return d
+
+    def run(self):
+        cfg = self.cfg
+        w = World(cfg, self.tag)
+        try:
+            data = bytes((5 * i + 1) % 256 for i in range(self.size))
+            alt = cfg.alt_remote
+            tick = max(1, min(cfg.ack_ms, cfg.nak_ms, alt.get("ack_ms", cfg.ack_ms)) // 2)
+            start_transfer(w, data)
+            r = Runner(w, [], max_rounds=200)
+            if self.first == "completed":
+                r.run()
+            else:
+                r.step_round(); r.step_round(); r.step_round()
+                for _ in range(8 * (cfg.ack_limit + cfg.nak_limit) + 12):
+                    w.link_s2d.clear(); w.link_d2s.clear()
+                    r.step_round()
+                    w.link_s2d.clear(); w.link_d2s.clear()
+                    w.advance(tick)
+                    if w.src.h.state.value == 0 and w.dst.h.state.value == 0:
+                        break
+            if w.src.h.state.value != 0 or w.dst.h.state.value != 0:
+                self.sides = [("source", w.src.ops, w.src.obs), ("dest", w.dst.ops, w.dst.obs)]
+                return self
+            w.advance(tick)
+            cfg.put_to_alt = True
+            start_transfer(w, data)
+            r = Runner(w, [], max_rounds=10 ** 6)
+            for _ in range(2 * (4 * alt.get("ack_limit", cfg.ack_limit) + 8)):
+                w.link_s2d.clear(); w.link_d2s.clear()
+                r.step_round()
+                w.link_s2d.clear(); w.link_d2s.clear()
+                if w.src.h.state.value == 0:
+                    break
+                w.advance(tick)
+            self.sides = [("source", w.src.ops, w.src.obs), ("dest", w.dst.ops, w.dst.obs)]
+            return self
+        finally:
+            cfg.put_to_alt = False
+            w.close()
+
+
+_base3_c04_cases = c04_cases
+
+
+def c04_cases(tier, rng):  # noqa: F811
+    cases = _base3_c04_cases(tier, rng)
+    combos = [(a, b, n1, n2, first) for a in (1000, 500, 2000) for b in (500, 1000, 3000) for n1 in (1, 2, 3) for n2 in (1, 2, 3)
+              for first in ("completed", "silent") if a != b]
+    if tier == "quick":
+        combos = rng.sample(combos, 24)
+    for a, b, n1, n2, first in combos:
+        cfg = Cfg(mode=0, max_seg=4, ack_ms=a, nak_ms=a, ack_limit=n1, nak_limit=n1, imm_nak=rng.random() < 0.5,
+                  closure=rng.random() < 0.5, cktype=rng.choice([2, 3, 15]),
+                  alt_remote={"id": 3, "ack_ms": b, "nak_ms": b, "ack_limit": n2, "nak_limit": n2, "mode": 0,
+                              "max_seg": rng.choice([2, 4])})
+        cases.append(ReuseSilentCase(cfg, rng.choice([0, 5, 9]), first))
     return cases
